@@ -204,6 +204,10 @@ def curated_gen():
          "S1": [P(3, "c"), P(0, "a", act="push", state="S1"), P(4, "e", act="pop")],
          "S2": [P(5, "\\("), P(1, "b", act="push", state="S2"), P(4, "e", act="pop")]})
     add({"Root": [named("tok", "a+"), named("Tok", "[ab]"), P(2, "(?s).")]})        # names differing only in the case of the first letter
+    add({"Root": [P(0, "a(?:b?){9}"), P(1, "(?s).")]})                           # a counted repetition (> 8) of an expression that can match nothing, at the end of the input
+    add({"Root": [P(0, "b(?:[ab]?){12}"), P(1, "a"), P(2, "(?s).")]})
+    # rules AFTER a Return (reached through Include of a state that ends in Return): Return always matches, they never run
+    add({"Root": [P(0, "a", act="push", state="S1"), P(1, "[bc]")], "S1": [inc("S2"), P(3, "c"), P(4, "a")], "S2": [P(2, "b"), RET]})
     return G
 
 
